@@ -9,12 +9,12 @@ func init() {
 	register(&Profile{
 		Name:     "C01",
 		Property: "C01",
-		Gen:      genC01,
+		Gen:      func(g *Gen) *Plan { return swarm(g, genC01(g), 0.25, 0.0) },
 		Oracles:  []func(o *Outcome) []Violation{oracleC01},
 		NonTrivial: func(o *Outcome) bool {
 			return o.Hist.Probes["request-blocked-behind-fetch"] > 0
 		},
-		Rule: "seeded plans: 1-3 keys (one hot), 1-4 expiry/refetch epochs of 2-10 concurrent GETs, lifetimes 1-5s, canonical cacheable / uncacheable replies, clock actions; schedule policy uniform/prio/freeze. non-trivial = at least one request was observed natively blocked behind an in-flight fetch of its key; distinct = distinct history hash",
+		Rule: "seeded plans: 1-3 keys (one hot), 1-4 expiry/refetch epochs of 2-10 concurrent GETs, lifetimes 1-5s, canonical cacheable / uncacheable replies, clock actions; schedule policy uniform/prio/freeze. in a quarter of the plans a tenth of the clients disconnect at a scheduler-chosen step (fault client-disconnect). non-trivial = at least one request was observed natively blocked behind an in-flight fetch of its key; distinct = distinct history hash",
 	})
 }
 
@@ -158,6 +158,11 @@ func oracleC01(o *Outcome) []Violation {
 func fetcherStored(o *Outcome, u *UpRec) bool {
 	c := o.Hist.Reqs[u.Req]
 	if c.Res == nil || c.ReturnSeq < 0 || c.Res.Aborted || c.Res.Refused {
+		return false
+	}
+	if l := c.Res.Header.Get("X-Status"); l == "hitForPass" || l == "passed" {
+		// it passed under a marker (left by an earlier uncacheable fetch or by a fetcher that gave
+		// up before reaching the origin): nothing is stored by such a request
 		return false
 	}
 	return c.Res.Status == u.Call.status && c.Res.Header.Get("X-Sim-Echo") != ""
